@@ -407,6 +407,19 @@ example : let s := run natOps (init (natDb 0)) exMarkerToctou
     (run natOps s (steps 2 11)).doneRes.reverse = [.ok, .ok, .ok, .ok] ∧
     (run natOps s (steps 2 11)).db.root = 7 ∧ (run natOps s (steps 2 11)).db.marker = some 2 := by decide
 
+/-- **Sensitivity of (2) to the order of the micro-steps** (defect F1 of the unchanged tree): the critical
+section of `try_commit_nonblocking` as it was before the repair — rollback delta appended BEFORE the root
+check — is not `specStep`: on a stale changeset it leaves its delta in the log.  (`runCS_progOf` fails for
+that program; with the repaired order it is a theorem.) -/
+example :
+    let cs := natCS 3 6
+    let sectionF1 : List (Instr Nat Nat Nat) :=
+      [.chkPoison, .logPush cs.delta true, .mLock, .chkRoot cs.base, .pubRoot cs.newRoot none, .mUnlock,
+       .store cs.writes true, .aWriteUnlock]
+    (runCS natOps sectionF1 {} (natDb 0)).2 = .errStale ∧ (runCS natOps sectionF1 {} (natDb 0)).1.log = [3] ∧
+    (specStep natOps (natDb 0) (.commit cs none false .ok)).2 = .errStale ∧
+    (specStep natOps (natDb 0) (.commit cs none false .ok)).1.log = [] := by decide
+
 /-- I/O failure and the poison flag: `store.commit` fails in thread 1's commit (the root is already published),
 the store is poisoned, thread 2's commit is refused under the guard — and the sequential specification says
 the same. -/
